@@ -101,7 +101,7 @@ func (eng *Engine) findNonNilGlobals() {
 		case *ssa.Call:
 			if sc := x.Call.StaticCallee(); sc != nil {
 				switch sc.String() {
-				case "errors.New", "fmt.Errorf":
+				case "errors.New", "fmt.Errorf", "google.golang.org/grpc/status.Error", "google.golang.org/grpc/status.Errorf":
 					eng.nonNilGlobal[g] = true
 				default:
 					if returnsFreshObject(sc) {
